@@ -2,7 +2,7 @@
 """Confirm a seeded breaking change produced by a sub-agent and record what our checks say about it.
 
 usage: confirm_seed.py <PROP> <index> [--no-tests]
-Looks in /tmp/seed/<PROP>/seed_out/<index>/ for patch.diff, demo.py, meta.json.
+Looks in $SEED_ROOT (default /tmp/seed)/<PROP>/seed_out/<index>/ for patch.diff, demo.py, meta.json.
 Creates a scratch worktree of /repo HEAD under /tmp/confirm, verifies:
   clean tree: demo exits 0;  patched: demo exits non-zero;  patched: the 354 pinned baseline tests still pass;
 then runs every property check against the patched worktree (via --repo) and records which rules fire.
@@ -27,7 +27,7 @@ def sh(cmd, cwd=None, env=None, timeout=3600):
 def main():
     prop, idx = sys.argv[1], sys.argv[2]
     run_tests = "--no-tests" not in sys.argv
-    src = f"/tmp/seed/{prop}/seed_out/{idx}"
+    src = f"{os.environ.get('SEED_ROOT', '/tmp/seed')}/{prop}/seed_out/{idx}"
     wt = f"/tmp/confirm/{prop}_{idx}"
     os.makedirs("/tmp/confirm", exist_ok=True)
     res = {"seed": f"{prop}-{idx}", "property": prop}
